@@ -123,6 +123,8 @@ def gen(rng, tier):
             "resolve_at": rng.choice([0, 0.05, 0.1, 0.5]), "timeout": rng.choice([None, None, 0, 0.0, 0.2, 1.0, 30.0]),
             "resolve_exc": rng.random() < 0.2, "attr_exc": rng.random() < 0.25,
             "ncancel": rng.choice([1, 2, 3]), "cancel_at": rng.choice([0, 0.02, 0.05, 0.1]), "settle": 3.0}
+    # the shielded future may itself be a proxy (f_nocancel(f_proxy(f))): the wrapper still mirrors f
+    spec["via_proxy"] = mode == "nocancel" and rng.random() < 0.4
     if spec["state"] == "never" and spec["timeout"] is None and mode == "op":
         spec["timeout"] = 1.0
     spec["sim"] = runner.draw_sim_cfg(rng, est=200)
@@ -207,7 +209,7 @@ def run(spec, env):
 def run_nocancel(spec, env, inner):
     from more_executors import futures as F
     sim = env.sim
-    w = F.f_nocancel(inner)
+    w = F.f_nocancel(F.f_proxy(inner) if spec.get("via_proxy") else inner)
     inner_exc = env.exc(("inner",))
 
     def resolver():
